@@ -115,6 +115,8 @@ func init() {
 func init() {
 	AddControl(Control{ID: "c13-alloc-indent-unclamped", Prop: "C13", Rule: "C13.alloc", File: "format/toml/toml.go",
 		Old: "min(max(0, opts.Indent), maxIndent)", New: "max(0, opts.Indent)", ExpectKey: "format/toml.toTOML|repeat|1"})
+	AddControl(Control{ID: "c13-alloc-read-grow", Prop: "C13", Rule: "C13.alloc", File: "pkg/interp/interp.go",
+		Old: "	buf := &bytes.Buffer{}\n	_, err = io.CopyN(buf, r, int64(l))", New: "	buf := &bytes.Buffer{}\n	buf.Grow(l)\n	_, err = io.CopyN(buf, r, int64(l))", ExpectKey: "(*pkg/interp.Interp)._stdioRead|grow|1"})
 	AddControl(Control{ID: "c13-alloc-read-len", Prop: "C13", Rule: "C13.alloc", File: "pkg/interp/interp.go",
 		Old: "	buf := &bytes.Buffer{}\n	_, err = io.CopyN(buf, r, int64(l))\n	s := buf.String()", New: "	rbuf := make([]byte, l)\n	n, err := io.ReadFull(r, rbuf)\n	s := string(rbuf[0:n])", ExpectKey: "(*pkg/interp.Interp)._stdioRead|make|1"})
 }
